@@ -95,6 +95,7 @@ MUTATORS = {"take", "replace", "remove", "remove_entry", "clear", "drain", "pop"
 TEXT_IDENTITIES = {"String::from", "str::to_string", "str::to_owned", "String::to_string", "ToString::to_string", "ToOwned::to_owned", "Into::into", "From::from", "String::clone", "Clone::clone", "str::into", "<str>::to_string", "<str>::to_owned", "std::string::String::from", "std::borrow::ToOwned::to_owned", "std::string::ToString::to_string", "String::as_str", "AsRef::as_ref", "Cow::from", "Cow::Borrowed", "Cow::Owned", "Cow::into_owned"}
 BOOLLIKE = {}  # private two-valued enum standing in for a bool: enum name -> {variant: True/False} (vlib/codegen.py::boollike)
 FIELD_ALIAS = {}  # actual (dotted) field path of the manager being interpreted -> canonical role name (vlib/mgrstate.py)
+METHOD_OWNER = {}  # name of an inherent `self` method of a crate type (unique in the crate) -> that type: `x.m()` and `T::m(x)` are one text
 ALIAS = {}  # actual function key -> role name (vlib/roles.py): canonical hole names do not depend on what a helper is called
 
 
@@ -136,6 +137,14 @@ class Interp:
 
         ALIAS.clear()
         ALIAS.update(roles.resolve(facts)[1])
+        METHOD_OWNER.clear()
+        owners = {}
+        for fn_ in facts.fns.values():
+            if not fn_.test and fn_.impl is not None and not fn_.impl.get("trait") and fn_.node.get("self") is not None:
+                owners.setdefault(fn_.name, set()).add(norm_ty(fn_.impl["self_ty"]).split("<")[0])
+        for n_, ts_ in owners.items():
+            if len(ts_) == 1:
+                METHOD_OWNER[n_] = sorted(ts_)[0]
 
     # -------------------------------------------------------------- helpers
     def payload_type(self, enum, variant, idx):
@@ -1174,6 +1183,8 @@ class Interp:
                         nxt.append((s2, acc + v["parts"]))
                     elif isinstance(v, dict) and v.get("v") == "int" and not spec:
                         nxt.append((s2, acc + [C(str(v["n"]))]))
+                    elif isinstance(v, dict) and v.get("v") == "char" and isinstance(v.get("c"), str) and not spec:
+                        nxt.append((s2, acc + [C(v["c"])]))  # a character constant formatted with {} is that character
                     else:
                         vv = dict(v) if isinstance(v, dict) else H("opaque", str(v))
                         vv["spec"] = spec
@@ -1888,10 +1899,54 @@ class Interp:
             out.append((s2, v))
         return out
 
-    def call_fn(self, key, argv, st, callnode, self_val=None):
+    def _payload_accessor(self, fn):
+        """`fn count(&self) -> T { let (A(s) | B(s) | ..) = self; *s }` (or the same as a one-arm match): a method of an enum
+        that hands out the payload every variant carries at one position, whatever the variant is."""
+        if fn.impl is None or fn.impl.get("trait") or fn.node.get("self") not in ("&self", "self") or fn.body is None or len(fn.params) > 1:
+            return False
+        en = norm_ty(fn.impl["self_ty"]).split("<")[0]
+        if en not in self.f.enums:
+            return False
+        sts = [x for x in fn.body.get("stmts", []) if x.get("k") != "item"]
+        pat = tail = None
+        if len(sts) == 2 and sts[0].get("k") == "let" and sts[0].get("else") is None and sts[0].get("init") is not None and rx.is_var(rx.peel(sts[0]["init"]), "self") and sts[1].get("k") == "expr" and not sts[1].get("semi"):
+            pat, tail = sts[0]["pat"], sts[1]["e"]
+        elif len(sts) == 1 and sts[0].get("k") == "expr" and rx.peel(sts[0]["e"]).get("k") == "match":
+            mt = rx.peel(sts[0]["e"])
+            if rx.is_var(rx.peel(mt["scrut"]), "self") and len(mt["arms"]) == 1 and mt["arms"][0].get("guard") is None:
+                pat, tail = mt["arms"][0]["pat"], mt["arms"][0]["body"]
+        if pat is None:
+            return False
+        while isinstance(pat, dict) and pat.get("k") in ("paren", "ref"):
+            pat = pat.get("pat") or pat.get("p")
+        alts = pat.get("cases") if isinstance(pat, dict) and pat.get("k") == "or" else None
+        if not alts:
+            return False
+        seen, where = set(), set()
+        for a_ in alts:
+            if a_.get("k") != "tstruct" or len(a_["segs"]) < 2 or a_["segs"][-2] not in (en, "Self"):
+                return False
+            ids = [(i_, x["name"]) for i_, x in enumerate(a_["elems"]) if x.get("k") == "ident" and not x.get("sub")]
+            if len(ids) != 1 or any(x.get("k") not in ("ident", "wild") for x in a_["elems"]):
+                return False
+            seen.add(a_["segs"][-1])
+            where.add(ids[0])
+        t_ = rx.peel(tail)
+        while t_.get("k") == "unary" and t_.get("op") == "*":
+            t_ = rx.peel(t_["e"])
+        if t_.get("k") == "mcall" and t_["m"] in ("clone", "to_owned") and not t_["args"]:
+            t_ = rx.peel(t_["recv"])
+        return len(where) == 1 and seen == set(self.f.variants(en)) and rx.is_var(t_, sorted(where)[0][1])
+
+    def call_fn(self, key, argv, st, callnode, self_val=None, force=False):
         fn = self.f.fns.get(key)
         if fn is None or self.depth >= self.maxdepth or key in self.no_inline:
             return [(st, H("call", src(callnode), callee=key, args=argv))]
+        if not force and self._payload_accessor(fn):
+            # `TimeSpec::count(t)` / `t.count()`: the payload itself
+            force = True
+            if self_val is None and argv:
+                self_val, argv = argv[0], list(argv[1:])
         out_ty = norm_ty(fn.node["output"])
         inline = (
             out_ty in ("String", "&'staticstr", "&str", "CResult<&'staticstr>", "CResult<Option<String>>", "CResult", "CResult<()>", "()", "u32", "OpenPort", "Option<Mode>")
@@ -1912,7 +1967,7 @@ class Interp:
         stack = getattr(self, "_callstack", [])
         if key in stack:
             return [(st, H("call", src(callnode), callee=key, args=argv, ty=out_ty, recursive=True))]
-        if not inline:
+        if not inline and not force:
             return [(st, H("call", src(callnode), callee=key, args=argv, ty=out_ty))]
         self._callstack = stack + [key]
         self.depth += 1
@@ -2334,6 +2389,15 @@ class Interp:
             names_ = [fl.get("name") or str(i_) for i_, fl in enumerate(sd_.get("fields", []))]
             if all(n_ in argv[0]["fields"] for n_ in names_) and all(d_ in self.f.derives(sd_) for d_ in ("PartialEq", "Eq", "Hash")):
                 argv = [{"v": "tuple", "xs": [argv[0]["fields"][n_] for n_ in names_], "src": argv[0].get("src")}] + list(argv[1:])
+        if ((k == "list" and rv.get("field")) or (k == "hole" and rv.get("kind") == "field")) and m in ("extend", "extend_from_slice", "append") and len(argv) == 1 and isinstance(argv[0], dict) and argv[0].get("v") == "list" and not argv[0].get("open") and not argv[0].get("field"):
+            # `vars.extend([a, b])`: the elements pushed one after the other
+            fld = rv["field"]
+            if not isinstance(st.fields.get(fld), list):
+                st.fields[fld] = []
+            for it_ in argv[0]["items"]:
+                st.fields[fld] = st.fields[fld] + [it_]
+                st.effects.append(("push", fld, it_))
+            return [(st, {"v": "unit"})]
         if k == "hole" and rv.get("kind") == "field" and m == "push" and len(argv) == 1:
             fld = rv["field"]
             st.fields.setdefault(fld, [])
@@ -2447,6 +2511,11 @@ class Interp:
         if k == "fn":
             pass
         # symbolic method call
+        if k == "hole" and not argv and rv.get("ty"):
+            en_ = norm_ty(rv["ty"]).lstrip("&").split("<")[0]
+            fn_ = self.f.fns.get("%s::%s" % (en_, m))
+            if fn_ is not None and en_ in self.f.enums and self._payload_accessor(fn_):
+                return self.call_fn(fn_.key, [], st, e, self_val=rv, force=True)
         return [(st, H("mcall", src(e), method=m, recv=rv, args=argv, ty=self._mret(rv, m)))]
 
     def _local_name(self, recv, st):
@@ -3013,6 +3082,10 @@ def canon(h):
             return "(%s as %s)%s" % (canon(h["args"][0]), cal_.split("::")[0], spec)
         return "%s(%s)%s" % (ALIAS.get(h.get("callee"), h.get("callee")), ",".join(canon(a) for a in h.get("args", [])), spec)
     if k == "mcall":
+        own_ = METHOD_OWNER.get(h.get("method"))
+        if own_ is not None and isinstance(h.get("recv"), dict) and h["recv"].get("v") == "hole" and h["recv"].get("kind") in ("payload", "elem", "proj"):
+            key_ = "%s::%s" % (own_, h.get("method"))
+            return "%s(%s)%s" % (ALIAS.get(key_, key_), ",".join(canon(a) for a in [h["recv"]] + list(h.get("args", []))), spec)
         return "%s.%s(%s)%s" % (canon(h.get("recv")), h.get("method"), ",".join(canon(a) for a in h.get("args", [])), spec)
     if k == "mgr":
         return "mgr.%s(%s)%s" % (h.get("method"), ",".join(canon(a) for a in h.get("args", [])), spec)
